@@ -63,6 +63,7 @@ type Module struct {
 	chaMemo    map[string]*ssa.Function
 	allFuncs   []*ssa.Function
 	mapCopy    map[*ssa.Function]bool
+	pathGet    map[*ssa.Function][]string
 	hflows     map[*ssa.Function][]flow
 	renames    map[string]string // anchors resolved to a renamed function (names.go)
 	gfCache    map[*ssa.Global]*ssa.Function
